@@ -11,6 +11,7 @@ CONSTANTS
   Flaw_StaleNext = FALSE
   Flaw_NoProposerReload = FALSE
   Flaw_NoStakeReload = FALSE
+  Flaw_StakeReloadOnlyIfEffChanged = FALSE
   Flaw_NoSyncRotate = FALSE
   Flaw_NoPubkeyExtend = FALSE
   Flaw_NoSyncLoadOnUpgrade = FALSE
